@@ -258,6 +258,14 @@ def type_(draw, ctx, depth):
         k = draw(st.sampled_from(cfg.constructed))
         if k in ("SEQOF", "SETOF"):
             t = T(k, elem=draw(type_(ctx, depth + 1)))
+            # known finding (C08 nested-of.trailing-constraint.misparsed): asn1c attaches the trailing constraint of
+            # 'SET OF SET OF X (c)' to the inner SET OF instead of X; the generators do not produce that shape
+            if t.elem.kind in ("SEQOF", "SETOF"):
+                leaf = t.elem
+                while leaf.kind in ("SEQOF", "SETOF") and leaf.elem is not None:
+                    leaf = leaf.elem
+                if leaf.kind != "REF" and (leaf.cons or leaf.size or leaf.alpha):
+                    leaf.cons = leaf.size = leaf.alpha = None
             if cfg.constraints and draw(st.integers(0, 2)) == 0:
                 t.size = draw(int_constraint(cfg, size=True))
         else:
@@ -511,7 +519,8 @@ def _alphabet_of(t):
     if k in ("VisibleString", "ISO646String"):
         return list(range(32, 127))
     if k == "BMPString":
-        return [0x41, 0x7a, 0x20, 0xe9, 0x3b1, 0x4e2d, 0xfffd, 0xd7ff, 0xe000, 0x1, 0xffff, 0x100, 0xff]
+        # U+FFFE/U+FFFF are not characters of ISO 10646: asn1c's BMPString alphabet is 0..65533
+        return [0x41, 0x7a, 0x20, 0xe9, 0x3b1, 0x4e2d, 0xfffd, 0xd7ff, 0xe000, 0x1, 0x100, 0xff]
     if k == "UniversalString":
         return [0x41, 0x7a, 0xe9, 0x3b1, 0x4e2d, 0xfffd, 0x10000, 0x1f600, 0x10ffff, 0x1, 0xffff]
     if k == "UTF8String":
